@@ -4,8 +4,8 @@ package main
 
 import (
 	"fmt"
-	"os"
 	"go/token"
+	"os"
 	"strings"
 
 	"golang.org/x/tools/go/ssa"
@@ -55,6 +55,9 @@ func runC18(w *World, r *Report) {
 		}
 		sub := newReport("C18", r.Tier)
 		kinds := map[string]bool{"make": true, "divide": true, "step": true, "index": true}
+		if os.Getenv("DFS_C18_LENCONST") != "" {
+			kinds["lenconst"] = true
+		}
 		if os.Getenv("DFS_C18_SLICE") != "" {
 			kinds["slice"] = true
 		}
